@@ -7,6 +7,7 @@ package main
 
 import (
 	"fmt"
+	"net/url"
 	"strings"
 
 	ap "github.com/go-ap/activitypub"
@@ -48,8 +49,97 @@ func (g *Gen) c15WideOwner(foldName bool) c15Owner {
 	return o
 }
 
+
+// ---------------------------------------------------------------------------------------------------------------
+// owners over EVERY authority url.parseAuthority accepts (the domain of the C15_*_w theorems): userinfo with
+// escapes (upper- and lower-case hex), "@" and ":" in the password, empty password, empty user, sub-delims; reg-names
+// with raw / escaped bytes >= 0x80 and "%25"; IPv4; IP literals with and without zone and port, empty port, several
+// "]", escapes in the zone decoding to a space or to a host byte.
+var c15WideAuths = []string{
+	"user@example.com", "us%65r:p%40ss@example.com", "user:@h", "@h", ":pw@h:8080", ":@h", "a:b:c@EXAMPLE.com", "a@b@h", "a@b:c@d@h:1", "u%2Fv@h", "u%3fv%23w@h",
+	"U%4A:%4a@h", "%4a%4A:%C3%A9%c3%a9@h", "user;v=1@h", "u!$&'()*+,;=:p!$&'()*+,;=@h", "~._-@h", "%25:%25@h", "%40@h", "inbox@h", "u:inbox@example.com:8443",
+	"1.2.3.4", "1.2.3.4:80", "u@127.0.0.1:", "[::1]", "[::1]:8080", "[::1]:", "u:p@[::1]", "[fe80::1%25en0]", "[fe80::1%25en0]:80", "[fe80::1%25a%20b]", "[fe80::1%25%41]",
+	"[FE80::A%25EN0]", "[fe80::1%25%7e]:", "[fe80::Ã¤]", "[fe80::%C3%A4]", "[fe80::%c3%a4%25z]", "[a]b]", "[a]b]:80", "[fe80::1%25en0%25x]", "[%25]", "[%2525]",
+	"u@[::1%25z]:1", "%4A@[v1.fe80::a+en1]", "ex%C3%A4mple.com", "ex%c3%a4mple.com:8080", "exÃ¤mple.com:", "EXÃMPLE.com", "a%25b", "a%2541", "a<b>c", "a\"b",
+	"a[b]c", "a:b:80", "h:", "u@ÿ.example", "%ff.example", "x%25%C3%A9",
+}
+
+// zones holding a byte >= 0x80: url.Parse takes them, URL.String prints the byte as "%XX", url.Parse refuses THAT in a
+// zone - the owner Split hands out does not parse (C15_zone_byte_above_7f_needed).  No URL of RFC 3986 / 6874:
+// replayed and counted, not judged.
+var c15ZoneHighAuths = []string{"[fe80::1%25Ã¤]", "[fe80::1%25ÿ]:80", "u@[::1%25enÃ©]"}
+
+var c15WidePaths = []string{"", "/", "/users/alice", "/users/inbox/", "/a%2Fb//", "/Outbox", "/jÃ¼rgen/likes", "/x@y", "/a:b/@"}
+
+func (g *Gen) c15AuthOwners(n int) []c15Owner {
+	var out []c15Owner
+	mk := func(sch, au, p string) c15Owner { return c15Owner{s: sch + "://" + au + p, scheme: sch, host: au, rawpath: p} }
+	for i, au := range c15WideAuths {
+		out = append(out, mk(c15Schemes[i%len(c15Schemes)], au, c15WidePaths[i%3]))
+		out = append(out, mk("https", au, c15WidePaths[3+i%(len(c15WidePaths)-3)]))
+	}
+	for i := 0; i < n; i++ {
+		w := g.c15WideOwner(i%9 == 8)
+		out = append(out, mk(w.scheme, c15WideAuths[g.Intn(len(c15WideAuths))], w.rawpath))
+	}
+	return out
+}
+
+type c15WNF struct {
+	scheme, host, path string
+	ok                 bool
+}
+
+// the oracle on these owners: net/url only to PARSE (scheme, decoded host, decoded path); normal form and comparison
+// are ours.  Userinfo is no part of it (IRI.Equals does not compare it); non-ASCII letters are compared as they are.
+func c15ParseW(s string) c15WNF {
+	if strings.ContainsAny(s, "?#") {
+		return c15WNF{}
+	}
+	u, err := url.Parse(s)
+	if err != nil || u.Scheme == "" || u.Host == "" {
+		return c15WNF{}
+	}
+	return c15WNF{c15AsciiLower(u.Scheme), c15AsciiLower(u.Host), c15AsciiLower(c15NormPath(u.Path)), true}
+}
+
+// does url.Parse read the host URL.String prints back as the same host?  (a fact about net/url alone)
+func c15HostStable(host string) bool {
+	u, err := url.Parse((&url.URL{Scheme: "http", Host: host, Path: "/"}).String())
+	return err == nil && u.Host == host
+}
+
+// the one known way to be unstable: an IP literal whose zone holds a byte >= 0x80
+func c15ZoneHigh(rawAuth string) bool {
+	k := strings.LastIndexByte(rawAuth, '@')
+	h := rawAuth[k+1:]
+	if !strings.HasPrefix(h, "[") {
+		return false
+	}
+	z := strings.Index(h, "%25")
+	if z < 0 {
+		return false
+	}
+	if e := strings.LastIndexByte(h, ']'); e > z {
+		h = h[:e]
+	}
+	for i := z; i < len(h); i++ {
+		if h[i] >= 0x80 {
+			return true
+		}
+	}
+	return false
+}
+
+func c15LastSegDecoded(p string) string {
+	if k := strings.LastIndexByte(p, '/'); k >= 0 {
+		return p[k+1:]
+	}
+	return ""
+}
+
 func c15Wide(g *Gen, rep *Report, outDir string, n int) error {
-	rep.Rule += "; WIDE GRAMMAR (c15u.go): owners whose path segments come from a pool with raw bytes >= 0x80 (valid UTF-8 or not), escapes decoding to any byte, spaces, quotes, brackets, '*', ':' and - every sixth owner - a last segment that is a collection name only under Unicode folding (KELVIN SIGN, LONG S); Coq: coll_split_u / of_actor_u / valid_collection_iri_u / iri_equals_u / url_parse_u / url_string_u against the real code and net/url; native: the property on every wide owner x 8 names with the independent parser"
+	rep.Rule += "; WIDE GRAMMAR (c15u.go): owners whose path segments come from a pool with raw bytes >= 0x80 (valid UTF-8 or not), escapes decoding to any byte, spaces, quotes, brackets, '*', ':' and - every sixth owner - a last segment that is a collection name only under Unicode folding (KELVIN SIGN, LONG S); Coq: coll_split_u / of_actor_u / valid_collection_iri_u / iri_equals_u / url_parse_u / url_string_u against the real code and net/url; native: the property on every wide owner x 8 names with the independent parser; AUTHORITY OWNERS (domain of the C15_*_w theorems): every authority of a pool with userinfo (escapes in both hex cases, '@' and ':' in the password, empty user, empty password, sub-delims), reg-names with raw / escaped bytes >= 0x80 and %25, IPv4, IP literals with and without zone and port, empty port, x paths; the same Coq cases plus Cases_C15_wstable (owner_dom_w and host_stable against net/url, and the instance of C15_split_join_w); native: net/url parses (scheme, decoded host, decoded path), own normal form and comparison, IRI.Equals both ways; zones holding a byte >= 0x80 (URL.String prints what url.Parse refuses) replayed and counted as outside-domain"
 	pre := "From AP.Model Require Import Prelude Vocab Bytes Url IriEq Pred CollIri Utf8 Fold UrlU IriEqU CollIriU.\nFrom AP.Gen Require Import TypeLists.\n"
 	owners := make([]c15Owner, 0, n)
 	for i := 0; i < n; i++ {
@@ -121,10 +211,41 @@ func c15Wide(g *Gen, rep *Report, outDir string, n int) error {
 	cwLib := uLibWriter(outDir, "Cases_C15_ulib")
 	oddNames := []string{"", "INBOX", "Likes", "liKed", "likeſ", "inbox/", "a/b", "é", "\xff", "outbox ", "test", "ſhares"}
 	custom := []ap.CollectionPaths{nil, {ap.Outbox}, {"Custom", ap.Likes}, {"é", "\xff"}}
-	for k, o := range owners {
+	aowners := g.c15AuthOwners(n / 3)
+	for _, au := range c15ZoneHighAuths {
+		aowners = append(aowners, c15Owner{s: "http://" + au + "/x", scheme: "http", host: au, rawpath: "/x"})
+	}
+	// the domain of the C15_*_w theorems and the stability of the printed host, against their native evaluation; and the
+	// instance of C15_split_join_w: inside the domain with a stable host the model's Split returns the name and an
+	// equivalent owner
+	hdrW := pre + "From AP.Proofs Require Import CollIriWP HostStableP.\n" +
+		"Definition ok (c : bytes * bytes * bool * bool * bool) : bool := let '(o, t, dom, stable, okw) := c in\n" +
+		"  Bool.eqb (owner_dom_w o) dom && (negb dom || (Bool.eqb (host_stable (owner_host_w o)) stable && Bool.eqb (host_ok_w (owner_host_w o)) okw))\n" +
+		"  && (negb (dom && okw) || stable)\n" +
+		"  && (negb (dom && stable) || match split_u (irif o t) with Some (o', t') => bytes_eqb t' t && iri_equ o' o true && iri_equ o o' true | None => false end).\n"
+	cwW := NewCaseWriter(outDir, "Cases_C15_wstable", hdrW, "bytes * bytes * bool * bool * bool")
+	addW := func(o, t string, label string) {
+		w := c15ParseW(o)
+		stable, okw := false, false
+		if w.ok {
+			u, _ := url.Parse(o)
+			stable = c15HostStable(u.Host)
+			au := o[strings.Index(o, "://")+3:]
+			if i := strings.IndexByte(au, '/'); i >= 0 {
+				au = au[:i]
+			}
+			okw = !c15ZoneHigh(au) // the condition of C15_split_join_all_w, judged on the RAW authority
+		}
+		cwW.Add("("+hx([]byte(o))+", "+hx([]byte(t))+", "+cbool(w.ok)+", "+cbool(stable)+", "+cbool(okw)+")", label)
+	}
+	all := append(append([]c15Owner{}, owners...), aowners...)
+	for k, o := range all {
 		c := c15Names[g.Intn(8)]
 		j := string(ap.IRIf(ap.IRI(o.s), ap.CollectionPath(c)))
 		lab := fmt.Sprintf("wide owner %d %q %s", k, o.s, c)
+		if k >= len(owners) || k%5 == 0 {
+			addW(o.s, c, lab)
+		}
 		addSplit(ap.ActivityPubCollections, j, lab)
 		if k%2 == 0 {
 			addSplit(ap.ActivityPubCollections, o.s, lab+" (owner itself)")
@@ -139,7 +260,7 @@ func c15Wide(g *Gen, rep *Report, outDir string, n int) error {
 		so, _ := ap.Split(ap.IRI(j))
 		addEq(string(so), o.s, true, "split-result vs "+lab)
 		if k%3 == 0 {
-			other := owners[g.Intn(len(owners))]
+			other := all[g.Intn(len(all))]
 			addEq(o.s, other.s, g.Chance(1, 2), fmt.Sprintf("wide owner %d vs another %q %q", k, o.s, other.s))
 		}
 		if k%4 == 0 {
@@ -156,11 +277,12 @@ func c15Wide(g *Gen, rep *Report, outDir string, n int) error {
 		rep.Count("coq:wide-owner-cases")
 	}
 	for k, s := range c15Junk {
+		addW(s, c15Names[k%8], fmt.Sprintf("junk %d %q", k, s))
 		addSplit(ap.ActivityPubCollections, s, fmt.Sprintf("junk %d %q", k, s))
 		addStr(s, c15Names[k%8], fmt.Sprintf("junk %d %q", k, s))
 		uLibAdd(cwLib, s, fmt.Sprintf("junk %d %q", k, s))
 	}
-	for _, w := range []*CaseWriter{cwSplit, cwStr, cwEq, cwLib, cwOA} {
+	for _, w := range []*CaseWriter{cwSplit, cwStr, cwEq, cwLib, cwOA, cwW} {
 		if err := rep.AddCases(w); err != nil {
 			return err
 		}
@@ -213,6 +335,67 @@ func c15Wide(g *Gen, rep *Report, outDir string, n int) error {
 		// Split of the owner itself: a name is handed out only when the last segment is one (ASCII case apart)
 		if _, sc := ap.Split(ap.IRI(o.s)); (sc != "") != wantValid {
 			rep.Violate(Violation{Op: "Split(owner) collection name (wide owner)", Input: o.s, Expected: fmt.Sprintf("a name: %v", wantValid), Observed: fmt.Sprintf("%q", string(sc)), Index: k})
+		}
+	}
+	// ---------------- native evaluation on the owners with userinfo / IP literals / escaped hosts ----------------
+	for k, o := range aowners {
+		want := c15ParseW(o.s)
+		if !want.ok {
+			rep.Violate(Violation{Op: "oracle", Input: o.s, Expected: "owner parses", Observed: "net/url does not give the generated owner a scheme and a host", Index: k})
+			continue
+		}
+		u, _ := url.Parse(o.s)
+		stable := c15HostStable(u.Host)
+		zoneHigh := c15ZoneHigh(o.host)
+		if !stable && !zoneHigh {
+			rep.Violate(Violation{Op: "oracle: url.Parse(URL.String()) host", Input: o.s, Expected: "the printed host is read back as the same host (every host but a zone with a byte >= 0x80)", Observed: "not read back", Index: k})
+			continue
+		}
+		if u.User != nil {
+			rep.Count("native:authority-owner-with-userinfo")
+		}
+		if strings.HasPrefix(u.Host, "[") {
+			rep.Count("native:authority-owner-with-ip-literal")
+		}
+		for _, c := range c15Names {
+			cp := ap.CollectionPath(c)
+			j := ap.IRIf(ap.IRI(o.s), cp)
+			rep.Evaluations++
+			rep.Distinguish("a|"+o.s+"|"+c, true)
+			so, sc := ap.Split(j)
+			if string(sc) != c {
+				rep.Violate(Violation{Op: "Split(IRIf(o,c)) name (authority owner)", Input: []any{o.s, c}, Expected: c, Observed: string(sc), Index: k})
+			}
+			equiv := c15ParseW(string(so)) == want && so.Equals(ap.IRI(o.s), true) && ap.IRI(o.s).Equals(so, true)
+			if !stable {
+				if equiv {
+					rep.Count("outside-domain:zone-with-byte-above-0x7f:split-owner-equivalent")
+				} else {
+					rep.Count("outside-domain:zone-with-byte-above-0x7f:split-owner-not-equivalent")
+				}
+			} else if !equiv {
+				rep.Violate(Violation{Op: "Split(IRIf(o,c)) owner (authority owner)", Input: []any{o.s, c}, Expected: fmt.Sprintf("an IRI equivalent to the owner (IRI.Equals both ways), normal form %v", want), Observed: fmt.Sprintf("%q with normal form %v", string(so), c15ParseW(string(so))), Index: k})
+			}
+			if string(so) != o.s {
+				rep.Count("native:split-owner-respelled-by-URL.String")
+			}
+			oa, err := cp.OfActor(j)
+			if err != nil {
+				rep.Violate(Violation{Op: "c.OfActor(IRIf(o,c)) (authority owner)", Input: []any{o.s, c}, Expected: "no error", Observed: err.Error(), Index: k})
+			} else if got := c15ParseW(string(oa)); got != want || !oa.Equals(ap.IRI(o.s), true) {
+				rep.Violate(Violation{Op: "c.OfActor(IRIf(o,c)) (authority owner)", Input: []any{o.s, c}, Expected: fmt.Sprintf("an IRI equivalent to the owner, normal form %v", want), Observed: fmt.Sprintf("%q with normal form %v", string(oa), got), Index: k})
+			}
+			if !ap.ValidCollectionIRI(j) {
+				rep.Violate(Violation{Op: "ValidCollectionIRI(IRIf(o,c)) (authority owner)", Input: []any{o.s, c}, Expected: "true", Observed: "false", Index: k})
+			}
+		}
+		rep.Evaluations++
+		wantValid := c15IsName(c15LastSegDecoded(u.Path))
+		if got := ap.ValidCollectionIRI(ap.IRI(o.s)); got != wantValid {
+			rep.Violate(Violation{Op: "ValidCollectionIRI(owner) (authority owner)", Input: o.s, Expected: fmt.Sprint(wantValid), Observed: fmt.Sprint(got), Index: k})
+		}
+		if _, sc := ap.Split(ap.IRI(o.s)); (sc != "") != wantValid {
+			rep.Violate(Violation{Op: "Split(owner) collection name (authority owner)", Input: o.s, Expected: fmt.Sprintf("a name: %v", wantValid), Observed: fmt.Sprintf("%q", string(sc)), Index: k})
 		}
 	}
 	return nil
